@@ -2,6 +2,7 @@
 // not the subject of any property.  A function named __vrt__<mangled> replaces <mangled> at call time in the engine
 // (the list actually used by a run is written to the evidence).  Each model states its contract.
 #include <string>
+#include <vector>
 #include <ctime>
 #include <cstdint>
 #include <nix/base/IDimensions.hpp>
@@ -73,5 +74,117 @@ std::string dimTypeToStr(const nix::DimensionType &d) {
 // OutOfBounds::make_message: message text is not a property subject
 std::string make_message(const std::string &s, unsigned long long) VRT("_ZN3nix11OutOfBounds12make_messageERKNSt7__cxx1112basic_stringIcSt11char_traitsIcESaIcEEEy");
 std::string make_message(const std::string &s, unsigned long long) { return s; }
+
+
+// ---- SI unit grammar (boost::regex in the original): a hand-written matcher for the same regular expressions,
+//      PREFIXES? UNITS POWER?  with Perl leftmost / first-alternative semantics.  The grammar itself is outside every claim
+//      (C18: not applicable part); this model only lets code that *uses* units run. ----
+static const char *const PFX[] = {"Y","Z","E","P","T","G","M","k","h","da","d","c","m","u","n","p","f","a","z","y",0};
+static const char *const UNT[] = {"m","g","s","A","K","mol","cd","Hz","N","Pa","J","W","C","V","F","S","Wb","T","H","lm","lx","Bq","Gy","Sv","kat","l","L","Ohm","%","dB","rad",0};
+static size_t starts(const std::string &s, size_t i, const char *lit) { size_t k = 0; while (lit[k]) { if (i + k >= s.size() || s[i + k] != lit[k]) return 0; k++; } return k; }
+// POWER = \^[+-]?[1-9]\d*  (greedy); returns length matched at i or 0
+static size_t power_at(const std::string &s, size_t i) {
+    size_t j = i;
+    if (j >= s.size() || s[j] != '^') return 0;
+    j++;
+    if (j < s.size() && (s[j] == '+' || s[j] == '-')) j++;
+    if (j >= s.size() || s[j] < '1' || s[j] > '9') return 0;
+    j++;
+    while (j < s.size() && s[j] >= '0' && s[j] <= '9') j++;
+    return j - i;
+}
+// full match of s against PREFIX{pfx} UNIT POWER{pow}; pfx/pow: 0 forbidden, 1 required, 2 optional
+static bool full_match(const std::string &s, int pfx, int pow) {
+    for (int pi = -1; pi < 20; pi++) {
+        size_t pl = 0;
+        if (pi < 0) { if (pfx == 1) continue; } else { if (pfx == 0) break; pl = starts(s, 0, PFX[pi]); if (!pl) continue; }
+        for (int ui = 0; UNT[ui]; ui++) {
+            size_t ul = starts(s, pl, UNT[ui]);
+            if (!ul) continue;
+            size_t rest = pl + ul;
+            if (rest == s.size()) { if (pow != 1) return true; continue; }
+            if (pow == 0) continue;
+            // \d* is greedy but may backtrack; a full match needs the power to consume everything
+            size_t w = power_at(s, rest);
+            if (w && rest + w == s.size()) return true;
+        }
+    }
+    return false;
+}
+// leftmost search for one alternative of a list (first alternative in list order at the leftmost position)
+static bool search_alt(const std::string &s, const char *const *alts, size_t &pos, size_t &len) {
+    for (size_t i = 0; i < s.size(); i++) for (int a = 0; alts[a]; a++) { size_t l = starts(s, i, alts[a]); if (l) { pos = i; len = l; return true; } }
+    return false;
+}
+// leftmost search for PREFIXES? UNITS POWER? (backtracking order: prefix alternatives, then no prefix; power greedy)
+static bool search_atomic(const std::string &s, size_t &pos, size_t &len) {
+    for (size_t i = 0; i < s.size(); i++) {
+        for (int pi = 0; pi <= 20; pi++) {
+            size_t pl = 0;
+            if (pi < 20) { pl = starts(s, i, PFX[pi]); if (!pl) continue; }
+            for (int ui = 0; UNT[ui]; ui++) {
+                size_t ul = starts(s, i + pl, UNT[ui]);
+                if (!ul) continue;
+                pos = i; len = pl + ul + power_at(s, i + pl + ul);
+                return true;
+            }
+        }
+    }
+    return false;
+}
+bool isAtomicSIUnit(const std::string &u) VRT("_ZN3nix4util14isAtomicSIUnitERKNSt7__cxx1112basic_stringIcSt11char_traitsIcESaIcEEE");
+bool isAtomicSIUnit(const std::string &u) { return full_match(u, 2, 2); }
+bool isCompoundSIUnit(const std::string &u) VRT("_ZN3nix4util16isCompoundSIUnitERKNSt7__cxx1112basic_stringIcSt11char_traitsIcESaIcEEE");
+bool isCompoundSIUnit(const std::string &u) {
+    // (atomic (\*|/))+ atomic : split at separators, every piece a full atomic match, at least two pieces
+    if (u.empty()) return false;
+    size_t start = 0; int pieces = 0;
+    for (size_t i = 0; i <= u.size(); i++) {
+        if (i == u.size() || u[i] == '*' || u[i] == '/') {
+            if (!full_match(u.substr(start, i - start), 2, 2)) return false;
+            pieces++; start = i + 1;
+        }
+    }
+    return pieces >= 2;
+}
+void splitUnit(const std::string &c, std::string &prefix, std::string &unit, std::string &power) VRT("_ZN3nix4util9splitUnitERKNSt7__cxx1112basic_stringIcSt11char_traitsIcESaIcEEERS6_S9_S9_");
+void splitUnit(const std::string &c, std::string &prefix, std::string &unit, std::string &power) {
+    size_t pos, len;
+    if (full_match(c, 1, 1)) {
+        search_alt(c, PFX, pos, len); prefix = c.substr(pos, len);
+        std::string suffix = c.substr(pos + len);
+        search_alt(suffix, UNT, pos, len); unit = suffix.substr(pos, len);
+        power = suffix.substr(pos + len); power = power.substr(1);
+    } else if (full_match(c, 0, 1)) {
+        prefix = "";
+        search_alt(c, UNT, pos, len); unit = c.substr(pos, len);
+        power = c.substr(pos + len); power = power.substr(1);
+    } else if (full_match(c, 1, 0)) {
+        search_alt(c, PFX, pos, len); prefix = c.substr(pos, len);
+        unit = c.substr(pos + len); power = "";
+    } else { unit = c; prefix = ""; power = ""; }
+}
+namespace { void invertPower(std::string &unit) {
+    std::string p, u, power; vrt::splitUnit(unit, p, u, power);
+    if (power.empty()) unit = p + u + "^-1";
+    else if (power[0] == '-') unit = p + u + "^" + power.substr(1);
+    else unit = p + u + "^-" + power;
+} }
+void splitCompoundUnit(const std::string &cu, std::vector<std::string> &atomic) VRT("_ZN3nix4util17splitCompoundUnitERKNSt7__cxx1112basic_stringIcSt11char_traitsIcESaIcEEERSt6vectorIS6_SaIS6_EE");
+void splitCompoundUnit(const std::string &cu, std::vector<std::string> &atomic) {
+    std::string s = cu, sep, m0;
+    size_t pos, len;
+    for (;;) {
+        bool found = search_atomic(s, pos, len);
+        m0 = found ? s.substr(pos, len) : std::string();
+        std::string suffix = found ? s.substr(pos + len) : std::string();
+        if (!(found && suffix.length() > 0)) break;
+        std::string sfx; for (char ch : suffix) if (!(ch == ' ' || ch == '\t')) sfx += ch;
+        if (sep == "/") { std::string u = m0; invertPower(u); atomic.push_back(u); } else atomic.push_back(m0);
+        sep = std::string(1, sfx.empty() ? ' ' : sfx[0]);
+        s = sfx.empty() ? std::string() : sfx.substr(1);
+    }
+    if (sep == "/") { std::string u = m0; invertPower(u); atomic.push_back(u); } else atomic.push_back(m0);
+}
 
 }  // namespace vrt
